@@ -96,7 +96,7 @@ def make_case(rng, s, idx):
     hv = (not tamper) and rng.random() < 0.4
     # a quarter of the histories: one side is configured for DTLS 1.2 AND 1.3 (the peer for 1.2 only, so 1.2 is negotiated and
     # sessions are created, looked up, resumed and evicted as on a 1.2-only endpoint)
-    layout = rng.choice([("12", "12")] * 6 + [("12", "dual"), ("dual", "12")]) if not tamper else ("12", "12")
+    layout = rng.choice([("12", "12")] * 3 + [("12", "dual")]) if not tamper else ("12", "12")
     for _ in range(nconn):
         sc = dict(rng.choice(FAM[fam]), ver="12", helloVerify=hv)
         if layout != ("12", "12"):
